@@ -207,16 +207,20 @@ func VH_C17_cap_cross_message() {
 	ma, sa := vNewMsg()
 	mb, sb := vNewMsg()
 	alice, bob := NewClient(&vHook{}), NewClient(&vHook{})
-	ma.CapTable = []*Client{alice, bob}
-	mb.CapTable = []*Client{bob, alice}
-	// indexes 0 and 1 name a capability, 2 (== len(CapTable)) and 3 name none
-	i := CapabilityID(vConc(int(vNondetU8()), 4))
-	j := CapabilityID(vConc(int(vNondetU8()), 4))
+	// entry 2 is null in both tables: in one as a promised client that resolved to null, in the other
+	// as a nil entry
+	np, npp := NewPromisedClient(&vHook{})
+	npp.Fulfill(nil)
+	ma.CapTable = []*Client{alice, bob, np}
+	mb.CapTable = []*Client{bob, alice, nil}
+	// indexes 0 and 1 name a capability, 2 the null capability, 3 (== len(CapTable)) and 4 none
+	i := CapabilityID(vConc(int(vNondetU8()), 5))
+	j := CapabilityID(vConc(int(vNondetU8()), 5))
 	eq, err := Equal(NewInterface(sa, i).ToPtr(), NewInterface(sb, j).ToPtr())
 	eq2, err2 := Equal(NewInterface(sb, j).ToPtr(), NewInterface(sa, i).ToPtr())
 	vReach("returned")
 	vAssert(err == nil && err2 == nil && eq == eq2, "C17.capx.symmetric")
-	var ci, cj *Client
+	var ci, cj *Client // the capability named, nil for "none / null"
 	if i < 2 {
 		ci = ma.CapTable[i]
 	}
@@ -267,4 +271,36 @@ func VH_C17_equals_reencoding() {
 	vAssume(dst.CopyFrom(s) == nil)
 	eq3, err := Equal(dst.ToPtr(), s.ToPtr())
 	vAssert(err == nil && eq3, "C17.reenc.value-equals-its-copy-into-a-larger-struct")
+}
+
+// a struct holding an interface pointer, deep-copied INSIDE one multi-segment message (into a list
+// element in another segment): the copy equals the original - capability pointers of one message
+// keep their index, whether or not the table has an entry for it
+func VH_C17_copy_interface_same_message() {
+	msg := &Message{Arena: MultiSegment([][]byte{make([]byte, 0, 64), make([]byte, 0, 256)})}
+	seg, err := msg.Segment(0)
+	vAssume(err == nil)
+	src, err := NewRootStruct(seg, ObjectSize{DataSize: 8, PointerCount: 1})
+	vAssume(err == nil)
+	src.SetUint64(0, vNondetU64())
+	idx := CapabilityID(vConc(int(vNondetU8()), 3))
+	if vConc(int(vNondetU8()), 2) == 1 {
+		msg.CapTable = []*Client{NewClient(&vHook{})}
+	}
+	vAssume(src.SetPtr(0, NewInterface(seg, idx).ToPtr()) == nil)
+	// a list that no longer fits into segment 0: it goes to segment 1
+	l, err := NewCompositeList(seg, ObjectSize{DataSize: 8, PointerCount: 1}, 3)
+	vAssume(err == nil)
+	before := len(msg.CapTable)
+	err = l.SetStruct(1, src)
+	vReach("copied")
+	vAssert(err == nil, "C17.samemsg.copy-ok")
+	if err != nil {
+		return
+	}
+	vAssert(len(msg.CapTable) == before, "C17.samemsg.capability-table-unchanged")
+	eq, err := Equal(src.ToPtr(), l.Struct(1).ToPtr())
+	vAssert(err == nil && eq, "C17.samemsg.copy-equals-original")
+	eq2, err := Equal(l.Struct(1).ToPtr(), src.ToPtr())
+	vAssert(err == nil && eq2, "C17.samemsg.symmetric")
 }
